@@ -38,6 +38,7 @@ def run(ctx):
     r8_sampler(ctx)
     r9_smoothing_sums_to_one(ctx)
     r10_math_domains(ctx)
+    r11_greedy_set_nonempty(ctx)
 
 
 def _single_return(fn):
@@ -368,6 +369,57 @@ def _reg_dict(tree):
     raise TargetMissing("Sparse.register(abc.Mapping)")
 
 
+def r11_greedy_set_nonempty(ctx, rule="C16.R11"):
+    """the greedy set of a bandit learner is divided by: it is non-empty because the value it is selected by is the maximum OF THE OFFERED actions' values."""
+    ctx.rule(rule, "the value that selects the greedy actions is the maximum over the values of the OFFERED actions (the list the selection ranges over), never over learner-wide state: "
+                   "when the best action ever seen is not offered the selection would be empty and 1/len(selection) raises ZeroDivisionError")
+    rel = "coba/learners/bandit.py"
+    n = 0
+    for c in ctx.model.classes:
+        if c.rel != rel or "_pmf" not in c.methods:
+            continue
+        pmf = c.methods["_pmf"]
+        for comp in [x for x in ast.walk(pmf) if isinstance(x, ast.ListComp)]:
+            for t in [t for g in comp.generators for t in g.ifs if isinstance(t, ast.Compare) and len(t.ops) == 1 and isinstance(t.ops[0], ast.Eq)]:
+                sides = [t.left, t.comparators[0]]
+                mv = [x for x in sides if isinstance(x, ast.Name) and assigned_value(pmf, x.id)]
+                other = [x for x in sides if x not in mv]
+                if len(mv) != 1 or len(other) != 1:
+                    continue
+                # the list the selection ranges over: `values[i]` -> values ;  `v` from zip(actions, values) -> values
+                V = None
+                o = other[0]
+                if isinstance(o, ast.Subscript) and isinstance(o.value, ast.Name):
+                    V = o.value.id
+                elif isinstance(o, ast.Name):
+                    for g in comp.generators:
+                        if isinstance(g.iter, ast.Call) and call_name(g.iter) == "zip" and isinstance(g.target, ast.Tuple):
+                            for a_, t_ in zip(g.iter.args, g.target.elts):
+                                if isinstance(t_, ast.Name) and t_.id == o.id and isinstance(a_, ast.Name):
+                                    V = a_.id
+                if V is None:
+                    continue
+                n += 1
+                ctx.touch(rel, f"{c.name}._pmf")
+                defs = assigned_value(pmf, mv[0].id)
+
+                def over_V(e):
+                    if isinstance(e, ast.IfExp):
+                        return over_V(e.body) and over_V(e.orelse)
+                    if isinstance(e, ast.Constant) and e.value is None:
+                        return True
+                    if isinstance(e, ast.Call) and call_name(e) == "max" and len(e.args) == 1:
+                        a = e.args[0]
+                        if isinstance(a, ast.Name):
+                            return a.id == V
+                        if isinstance(a, (ast.GeneratorExp, ast.ListComp)):
+                            return unparse(a.generators[0].iter) == V and not any(is_self_attr(y) for y in ast.walk(a))
+                    return False
+                ok = bool(defs) and all(over_V(d) for d in defs)
+                ctx.ob(rule, rel, f"{c.name}._pmf", comp, f"the selecting value `{mv[0].id}` is the maximum over `{V}`, the values of the offered actions", ok, detail={"definitions": [unparse(d)[:80] for d in defs]})
+    ctx.floor(rule, "greedy selections in the bandit learners", n, 2)
+
+
 class _Sign:
     """sign analysis (domain {>=0 or nan, >=1, unknown}) of arithmetic expressions inside one class: names are resolved through their single
     definition in the function, `self.m(...)` through the return expressions of m, count fields and trusted properties through tables that
@@ -525,6 +577,7 @@ def r10_math_domains(ctx):
 
 
 CONTROLS = [
+    ("epsilon-greedy maximises over every action ever seen", "coba/learners/bandit.py", M.replace_expr("BanditEpsilonLearner._pmf", "None if set(values) == {None} else max((v for v in values if v is not None))", "max(self._Q.values())"), "C16.R11"),
     ("ucb variance as mean of squares minus squared mean", "coba/learners/bandit.py", M.replace_expr("BanditUCBLearner._Var_R_UCB", "self._v[action].variance", "self._v[action].variance - self._m[action] ** 2"), "C16.R10"),
     ("uniform draws reach 1.0", "coba/random.py", M.replace_expr("CobaRandom._next_uniform", "s / m", "s / m_1"), "C16.R8"),
     ("uniform mass added per learner without dividing by M", "coba/learners/corral.py", M.replace_expr("CorralLearner.learn", "(1 - self._gamma) * p + self._gamma * 1 / len(self._base_lrns)", "(1 - self._gamma) * p + self._gamma"), "C16.R9"),
